@@ -20,6 +20,8 @@ Other facts
   scanSplitEvery          default of `scan(..., split_every=5)`
   scanAssert              the asserted expression of `scan` (ties Model/Validate.lean:scanBuild to the source)
   scanIncKeyExpr          the expression used for the increment block (`bi // split_every`)
+  scanReducedSizes / scanDivmod / scanPassesReducedSizes
+                          how `scan` declares the chunk sizes of `reduced` (ties Model/Validate.lean:reducedSizes)
   helperCallSites         number of call sites, outside tests, of assertion helpers whose contract is to assert
                           (`verify_chunk_compatibility`) -- must stay 0 for their classification to hold
   legacyFuseGuard         the expression `can_fuse_primitive_ops` returns for two candidates (guards the assert in `fuse`)
@@ -185,6 +187,21 @@ def facts(repo):
     if not key_expr:
         raise ExtractError(f"{rel}: scan.back_key_function: increment coordinate expression not found")
     out["scanIncKeyExpr"] = ("String", lean_str(key_expr), rel + ":scan.back_key_function")
+
+    # the declared sizes of `reduced` (fix 5fff6ae); empty strings when the shape is not there (old code): the tie
+    # theorem then fails instead of the extractor
+    sizes_expr, divmod_expr = "", ""
+    for n in ast.walk(fn):
+        if isinstance(n, ast.Assign) and len(n.targets) == 1:
+            tgt = ast.unparse(n.targets[0])
+            if tgt == "reduced_sizes":
+                sizes_expr = ast.unparse(n.value)
+            elif tgt in ("num_full, num_rest", "(num_full, num_rest)"):
+                divmod_expr = ast.unparse(n.value)
+    out["scanReducedSizes"] = ("String", lean_str(sizes_expr), rel + ":scan (reduced_sizes = …)")
+    out["scanDivmod"] = ("String", lean_str(divmod_expr), rel + ":scan (num_full, num_rest = …)")
+    uses = any(isinstance(n, ast.keyword) and n.arg == "combine_sizes" and "reduced_sizes" in ast.unparse(n.value) for n in ast.walk(fn))
+    out["scanPassesReducedSizes"] = ("Bool", "true" if uses else "false", rel + ":scan (combine_sizes={axis: reduced_sizes})")
 
     out["helperCallSites"] = ("Nat", str(sum(_count_calls(repo, h) for h in ASSERT_HELPERS)),
                               "call sites outside tests of " + ", ".join(ASSERT_HELPERS))
